@@ -26,7 +26,7 @@ import weakref
 import numpy as np
 
 from simkit.core import RunState, Sim
-from simkit.world import World, SEAM, quiet
+from simkit.world import World, SEAM, SimFault, quiet
 
 
 class ScaleSim(Sim):
@@ -40,7 +40,7 @@ class ScaleSim(Sim):
     PROBES = ["chain_depth_ge_10000", "chain_depth_ge_40000", "recursion_limit_400", "recursion_limit_3000", "fanout_ge_5000", "ladder_ge_2000",
               "untracked_no_grad_loop", "untracked_nograd_operands_loop", "untracked_interleaved_with_tracked", "work_scaling_measured",
               "gc_during_build", "chain_with_view_ops", "same_operand_twice_in_chain", "chain_two_sweeps", "chain_retain_ctx", "chain_retain_every",
-              "untracked_body_mul_param_add_param", "untracked_body_functional", "untracked_body_linear", "untracked_body_views", "untracked_body_unbind"]
+              "untracked_body_mul_param_add_param", "untracked_body_functional", "untracked_body_linear", "untracked_body_views", "untracked_body_unbind", "detached_loop_bptt", "detached_loop_log", "fault_mid_deep_sweep_then_retry"]
     RULE = ("one run = 1-3 large scenarios (deep chain / wide fan-out / diamond ladder / untracked loop / work-scaling pair) with seeded sizes, op "
             "patterns, recursion-limit knob and gc schedule; distinct = scenario family x size bucket x recursion limit; non-trivial = every run")
     ASSUMPTIONS = ["cost is judged on deterministic work counters (line events in tensor.py, Tensor.__eq__/__hash__ calls), not on time: "
@@ -64,16 +64,19 @@ class ScaleSim(Sim):
             if kn["big"]:
                 depth = rng.choice([100000, 200000])
             return {"k": "chain", "depth": depth, "seed": rng.randrange(10 ** 6), "views": rng.random() < 0.4, "gc_every": rng.choice([0, 0, 5000]),
-                    "limit": kn["limit"], "retain": rng.choice(["none", "none", "some", "ctx", "every"]), "sweeps": rng.choice([1, 1, 2])}
+                    "limit": kn["limit"], "retain": rng.choice(["none", "none", "some", "ctx", "every"]), "sweeps": rng.choice([1, 1, 2]),
+                    "fault": ({"kind": rng.choice(["alloc", "interrupt", "exit"]), "at": rng.randint(1, max(1, depth - 1))} if rng.random() < 0.3 else None)}
         if fam == "fanout":
             return {"k": "fanout", "n": rng.choice([1000, 3000, 6000, 10000]), "limit": kn["limit"]}
         if fam == "ladder":
             return {"k": "ladder", "n": rng.choice([500, 2000, 5000, 12000]), "limit": kn["limit"]}
         if fam == "untracked":
+            if rng.random() < 0.3:
+                return {"k": "detached", "n": rng.choice([300, 1000, 3000]), "pattern": rng.choice(["bptt", "log", "numpy_roundtrip"]), "limit": kn["limit"]}
             return {"k": "untracked", "n": rng.choice([10000, 30000, 100000]), "mode": rng.choice(["no_grad", "nograd_operands"]),
                     "body": rng.choice(["scale_add", "mul_param_add_param", "functional", "linear", "views", "unbind"]),
                     "tracked_every": rng.choice([0, 0, 2500]), "limit": kn["limit"]}
-        return {"k": "work", "n": rng.choice([400, 800]), "shape": rng.choice(["chain", "ladder"])}
+        return {"k": "work", "n": rng.choice([400, 800]), "shape": rng.choice(["chain", "ladder", "fanin", "fanout"])}
 
     def _preflight(self, st):
         """tiny ladders first: work that grows with the number of PATHS (2^n) instead of nodes shows at n = 6 vs 12 and would never
@@ -180,6 +183,21 @@ class ScaleSim(Sim):
             if retained.requires_grad:
                 retained.retain_grad()
         g = np.array([1.0, 0.5, -2.0])
+        fault = ev.get("fault")
+        if fault:
+            # a sweep aborted at an arbitrary backward function, then the documented recovery (reset the leaf) and a retry on the same
+            # graph: the retry must again visit every recorded operation exactly once
+            SEAM.arm_bw(fault["kind"], fault["at"])
+            try:
+                with quiet():
+                    cur.backward(SG.Tensor(g.copy()))
+            except SimFault:
+                st.faults["deep_sweep_" + fault["kind"]] += 1
+                st.probes["fault_mid_deep_sweep_then_retry"] += 1
+            except RecursionError:
+                pass
+            SEAM.disarm()
+            x.zero_()
         try:
             for sweep in range(sweeps):
                 # (a second sweep over the same deep graph crosses the gradients the first one retained)
@@ -311,6 +329,53 @@ class ScaleSim(Sim):
                     "(bounded memory requires a constant)", live=live - base_live)
         st.obs("untracked", n, checked)
 
+    def _ev_detached(self, st, ev):
+        """a long-running loop whose state is handed from step to step through detach(): truncated back-propagation through time
+        (h = h_new.detach()) or logging (log.append(loss.detach())).  Every step differentiates a graph of constant size, and nothing of
+        a finished step may stay alive."""
+        SG = st.SG
+        n, pattern = ev["n"], ev["pattern"]
+        st.sig.append(f"detached:{pattern}:{n // 1000}")
+        st.probes["detached_loop_" + pattern] += 1
+        w = SG.Tensor(np.array([0.5, 0.25]), requires_grad=True)
+        h = SG.Tensor(np.array([1.0, 2.0]))
+        log = []
+        refs = []
+        counts = []
+        gc.collect()
+        base_live = sum(1 for o in gc.get_objects() if isinstance(o, SG.Tensor))
+        with quiet():
+            for i in range(n):
+                hn = (h * w + 0.125) * 0.5
+                loss = (hn * hn).sum()
+                w.zero_()
+                SEAM.bw_calls = []
+                loss.backward()
+                counts.append(len(SEAM.bw_calls))
+                SEAM.bw_calls = None
+                if i % 100 == 0:
+                    refs.append((i, weakref.ref(hn)))
+                if pattern == "bptt":
+                    h = hn.detach()
+                elif pattern == "log":
+                    log.append(loss.detach())
+                    if len(log) > 50:
+                        del log[:25]            # a bounded log: old entries are dropped by the user
+                    h = SG.Tensor(hn.data.copy())
+                else:
+                    h = SG.Tensor(hn.detach().numpy().copy())
+                del hn, loss
+        gc.collect()
+        if len(set(counts)) != 1:
+            st.fail("C17.linear_cost", f"detach() hand-off ({pattern}): the number of backward functions run per step grows from {counts[0]} (step 0) to "
+                    f"{counts[-1]} (step {n - 1}): detached tensors keep the graph of earlier steps reachable")
+        alive = [i for i, r in refs[:-2] if r() is not None]
+        if alive:
+            st.fail("C17.untracked_keeps_history", f"detach() hand-off ({pattern}): intermediate results of steps {alive[:5]} are still alive at the end of a loop of {n} steps")
+        live = sum(1 for o in gc.get_objects() if isinstance(o, SG.Tensor))
+        if live - base_live > 120:
+            st.fail("C17.untracked_keeps_history", f"detach() hand-off ({pattern}): {live - base_live} more Tensor objects alive after the loop than before it")
+
     # ------------------------------------------------------------------ work scaling
     def _measure(self, st, n, shape):
         SG = st.SG
@@ -318,8 +383,16 @@ class ScaleSim(Sim):
         x = Tn(np.array([1.0, 2.0]), requires_grad=True)
         cur = x
         with quiet():
-            for i in range(n):
-                cur = (cur * 0.5 + cur * 0.5) if shape == "ladder" else (cur * 2.0 if i % 2 else cur * 0.5)
+            if shape == "fanin":
+                # one operation with n operands (stack of n distinct tensors), each a leaf of its own
+                leaves = [Tn(np.array([1.0, 2.0]), requires_grad=True) for _ in range(n)]
+                cur = SG.sg.stack(leaves, 0).sum(0) * 0.0 + x
+            elif shape == "fanout":
+                # one tensor with n consumers
+                cur = SG.sg.stack([x * 1.0 for _ in range(n)], 0).sum(0)
+            else:
+                for i in range(n):
+                    cur = (cur * 0.5 + cur * 0.5) if shape == "ladder" else (cur * 2.0 if i % 2 else cur * 0.5)
         counts = {"line": 0, "eqhash": 0}
         fname = SG.T.__file__
 
@@ -361,8 +434,9 @@ class ScaleSim(Sim):
                     setattr(Tn, name, had)
         if err is not None:
             st.fail("C17.deep_backward", f"backward on a {shape} of {n} nodes raised {type(err).__name__}: {err}")
-        if not np.array_equal(np.asarray(x.grad.data, dtype=np.float64), np.ones(2)):
-            st.fail("C17.deep_gradient", f"{shape} of {n} nodes: leaf gradient {x.grad.data.tolist()}, closed form [1, 1]")
+        want = np.ones(2) * (n if shape == "fanout" else 1)
+        if not np.array_equal(np.asarray(x.grad.data, dtype=np.float64), want):
+            st.fail("C17.deep_gradient", f"{shape} of {n} nodes: leaf gradient {x.grad.data.tolist()}, closed form {want.tolist()}")
         return counts["line"] + counts["eqhash"], counts
 
     def _ev_work(self, st, ev):
